@@ -147,8 +147,14 @@ void _ZNSt6vectorIPN5cocls7awaiterESaIS2_EED2Ev(WBV *v) { }
 void _ZSt4swapIPN5cocls7awaiterESaIS2_EEvRSt6vectorIT_T0_ES8_(WBV *a, WBV *b) {
   cv_i64 t = WB_LEN(a); WB_LEN(a) = WB_LEN(b); WB_LEN(b) = t;
   wb_cnt = 2; }                                   /* content abstraction no longer tied to one vector: "unknown" until the next clear() */
-AWT **_ZNSt6vectorIPN5cocls7awaiterESaIS2_EE5beginEv(WBV *v) { return PS_ENC(AWT *, 0); }
-AWT **_ZNSt6vectorIPN5cocls7awaiterESaIS2_EE3endEv(WBV *v) { return PS_ENC(AWT *, WB_LEN(v)); }
+/* iterating the MEMBER buffer (not a moved-out local copy) needs the queue mutex like every other access to it */
+#ifdef PS_LOCKCHECK_WB_ITER
+#define PS_WB_ITER_CHK(v, what) do { if (ps_q != 0 && (void *)(v) == (void *)&ps_q->_wakeup_buffer) __CPROVER_assert(gh_lock_depth > 0, what ": queue mutex held (lock discipline)"); } while (0)
+#else
+#define PS_WB_ITER_CHK(v, what)
+#endif
+AWT **_ZNSt6vectorIPN5cocls7awaiterESaIS2_EE5beginEv(WBV *v) { PS_WB_ITER_CHK(v, "wake-up buffer (member): begin()"); return PS_ENC(AWT *, 0); }
+AWT **_ZNSt6vectorIPN5cocls7awaiterESaIS2_EE3endEv(WBV *v) { PS_WB_ITER_CHK(v, "wake-up buffer (member): end()"); return PS_ENC(AWT *, WB_LEN(v)); }
 cv_i1 _ZN9__gnu_cxxeqIPPN5cocls7awaiterESt6vectorIS3_SaIS3_EEEEbRKNS_17__normal_iteratorIT_T0_EESD_(WBIT *a, WBIT *b) {
   return a->_M_current == b->_M_current ? 1 : 0; }
 AWT **_ZNK9__gnu_cxx17__normal_iteratorIPPN5cocls7awaiterESt6vectorIS3_SaIS3_EEEdeEv(WBIT *it) {
